@@ -20,6 +20,8 @@ pub mod c17;
 #[cfg(not(feature = "inproc"))]
 pub mod c18;
 pub mod c19;
+#[cfg(feature = "asynch")]
+pub mod c20;
 
 macro_rules! table {
     ($($(#[$m:meta])* $id:literal => $t:ty),* $(,)?) => {
@@ -58,6 +60,8 @@ table! {
     #[cfg(not(feature = "inproc"))]
     "C18" => c18::C18,
     "C19" => c19::C19,
+    #[cfg(feature = "asynch")]
+    "C20" => c20::C20,
 }
 
 pub fn helper(args: &[String]) -> i32 {
